@@ -10,16 +10,16 @@ import (
 
 // Effect is the bottom-up summary of what a function may do (DESIGN.md 1.3).
 type Effect struct {
-	Writes   map[string]Class    // non-local classes that may be written
-	Locks    map[string]bool     // abstract locks that may be acquired
-	Blocks   map[string]bool     // blocking operations that may be performed (callee names)
-	FileOps  map[string]bool     // file-system mutating externals that may be called
-	Nondet   bool                // may read a clock, randomness, the network or the file system
-	Panics   bool                // contains an explicit panic or Fatal call (transitively)
-	Fresh    []bool              // result i is freshly allocated on every return
+	Writes   map[string]Class       // non-local classes that may be written
+	Locks    map[string]bool        // abstract locks that may be acquired
+	Blocks   map[string]bool        // blocking operations that may be performed (callee names)
+	FileOps  map[string]bool        // file-system mutating externals that may be called
+	Nondet   bool                   // may read a clock, randomness, the network or the file system
+	Panics   bool                   // contains an explicit panic or Fatal call (transitively)
+	Fresh    []bool                 // result i is freshly allocated on every return
 	Spawns   map[*ssa.Function]bool // functions started asynchronously (go, tg.Launch, AfterFunc)
 	Callees  map[*ssa.Function]bool // synchronous repository callees (transitive)
-	ExtCalls map[string]bool     // external callees (transitive, by name)
+	ExtCalls map[string]bool        // external callees (transitive, by name)
 }
 
 func newEffect() *Effect {
@@ -152,7 +152,7 @@ var extBlocking = map[string]bool{
 	"net/http.Post": true, "net/http.Get": true, "(*net/http.Client).Do": true,
 	"time.Sleep": true, "(*github.com/glowlabs-org/threadgroup.ThreadGroup).Sleep": true,
 	"(*github.com/glowlabs-org/threadgroup.ThreadGroup).Stop": true,
-	"(*net/http.Server).Serve": true, "(*net/http.Server).Shutdown": true,
+	"(*net/http.Server).Serve":                                true, "(*net/http.Server).Shutdown": true,
 	"io.ReadAll": true, "io.Copy": true,
 }
 
